@@ -36,7 +36,7 @@ PROFILES = {
                 autorestart=['false', 'false', 'unexpected', 'true', 'true'], p_autostart=0.4, p_late_boot=0.4,
                 quiesce=60.0, latencies=[{'lo': 0.0002, 'hi': 0.02}, {'lo': 0.001, 'hi': 0.3}, {'lo': 0.01, 'hi': 1.5},
                                          {'lo': 0.05, 'hi': 3.0}]),
-    'C03': dict(BASE, no_restart_storm=True, p_crash_near_op=0.4, max_faults=3, min_faults=0, ops={'start_application': 3, 'restart_application': 2,
+    'C03': dict(BASE, no_restart_storm=True, p_crash_near_op=0.4, p_stop_focus=0.12, max_faults=3, min_faults=0, ops={'start_application': 3, 'restart_application': 2,
                                                          'restart_sequence': 1}, max_ops=5,
                 fault_weights={'crash': 1, 'restart': 2, 'child_exit': 2},
                 conciliation_strategies=['SENICIDE', 'INFANTICIDE', 'USER', 'STOP'],
@@ -57,9 +57,9 @@ PROFILES = {
                                                          'stop_application': 2}, max_ops=8,
                 fault_weights={'crash': 1, 'restart': 2, 'child_exit': 1},
                 loads=[0, 5, 10, 15, 20, 25, 30, 40], p_shared_node=0.7, p_absent=0.2, p_disabled=0.1,
-                n_inst=[3, 4, 5, 5], n_programs=[2, 3, 4], n_groups=[2, 3, 4], max_app_seq=2,
+                n_inst=[3, 4, 5, 5], n_programs=[2, 3, 4, 5, 6], n_groups=[2, 3, 4], max_app_seq=2, max_seq=2,
                 distributions=['ALL_INSTANCES', 'ALL_INSTANCES', 'SINGLE_INSTANCE', 'SINGLE_NODE'],
-                child_kinds=SIMPLE_CHILDREN, p_numprocs=0.2, supvisors_failure_strategies=['CONTINUE'],
+                child_kinds=SIMPLE_CHILDREN, p_numprocs=0.35, supvisors_failure_strategies=['CONTINUE'],
                 p_ident_rule=0.7),
     'C05': dict(BASE, max_faults=3, min_faults=0, ops={'supervisor.startProcess': 5, 'supervisor.stopProcess': 1},
                 min_ops=2, max_ops=8, fault_weights={'crash': 1, 'restart': 1, 'partition': 3, 'child_exit': 1},
@@ -69,8 +69,10 @@ PROFILES = {
                 supvisors_failure_strategies=['CONTINUE'], p_absent=0.05, p_disabled=0.0, p_trigger_op=0.3,
                 p_heal=0.9, p_final_heal=1.0),
     'C06': dict(BASE, max_faults=1, min_faults=1, ops='none', fault_weights={'crash': 1}, fault_window=(25.0, 120.0),
-                ops_near_fault=[0, 0, 1, 1, 2], startsecs=[0, 1, 2, 4, 8, 12],
-                child_kinds={'ok': 0.97, 'exec_fail': 0.03}, autorestart=['false'], p_autostart=0.0, p_sequenced=0.9,
+                ops_near_fault=[0, 0, 1, 1, 2], startsecs=[0, 1, 2, 4, 8, 12], p_stop_before_crash=0.35,
+                stopwaitsecs=[2, 4, 8, 12],
+                child_kinds={'ok': 0.77, 'exec_fail': 0.03, 'slow_stop': 0.12, 'ignore_stop': 0.08}, autorestart=['false'],
+                p_autostart=0.0, p_sequenced=0.9,
                 p_app_sequenced=1.0,
                 running_failure=['CONTINUE', 'RESTART_PROCESS', 'STOP_APPLICATION', 'RESTART_APPLICATION'],
                 n_inst=[3, 3, 4, 5], n_groups=[1, 2, 3], n_programs=[2, 3, 4], p_absent=0.05, p_disabled=0.0,
@@ -106,12 +108,13 @@ PROFILES = {
                 inactivity_ticks=[2, 2, 3], hostile=0.2, window=(18.0, 160.0), quiesce=30.0, n_events=(20, 120),
                 p_sees_isolated=0.3, p_strategy_mismatch=0.25, n_real=[1, 1, 2],
                 weights={'event': 40, 'forced': 5, 'removed': 5, 'added': 5, 'down': 3, 'mute': 4, 'stealth': 2,
-                         'disability': 5, 'op': 3, 'tick': 8, 'state': 8, 'replay': 12}),
-    'C15': dict(builder='puppet', mix=[('C12', 0.1), ('C03', 0.1)], p_managed=0.9, p_numprocs=0.25, p_autostart=0.2, n_groups=[1, 2, 2], n_programs=[1, 2, 3, 4],
+                         'disability': 5, 'op': 3, 'tick': 8, 'state': 8, 'replay': 12, 'slowlink': 3}),
+    'C15': dict(builder='puppet', mix=[('C12', 0.1), ('C03', 0.1)], p_real_absent=0.5, p_managed=0.9, p_numprocs=0.25, p_autostart=0.2, n_groups=[1, 2, 2], n_programs=[1, 2, 3, 4],
                 child_kinds={'ok': 0.6, 'exit_late': 0.2, 'exit_early': 0.1, 'backoff_then_ok': 0.05, 'exec_fail': 0.05},
                 supvisors_failure_strategies=['CONTINUE'], p_auto_fence=0.3, formulas=0.7,
                 inactivity_ticks=[2, 2, 3], hostile=0.0, window=(18.0, 140.0), quiesce=40.0, n_events=(10, 100)),
-    'C17': dict(BASE, max_faults=3, min_faults=0, ops='gated', ops_pairs=[0, 1, 1, 2], min_ops=6, max_ops=16, p_trigger_op=0.55, p_managed=0.7,
+    'C17': dict(BASE, max_faults=3, min_faults=0, ops='gated', ops_pairs=[0, 1, 1, 2], p_ending_op_near_loss=0.5,
+                victim_pool=['$master', '$master', '$nonmaster', '$trigger'], min_ops=6, max_ops=16, p_trigger_op=0.55, p_managed=0.7,
                 p_late_boot=0.4, p_absent=0.2, fault_weights={'crash': 1, 'restart': 3, 'partition': 2, 'child_exit': 1},
                 conciliation_strategies=['USER', 'USER', 'SENICIDE', 'STOP'], ops_window=(1.0, 200.0),
                 synchro_pool=['USER', 'USER', 'TIMEOUT', 'STRICT', 'LIST', 'CORE'], child_kinds=SIMPLE_CHILDREN,
@@ -136,7 +139,7 @@ PROFILES = {
                 window=(25.0, 150.0), quiesce=90.0, n_events=(10, 40), n_real=[1], p_known=1.0,
                 weights={'event': 12, 'forced': 2, 'removed': 2, 'added': 3, 'down': 1, 'mute': 1, 'stealth': 0.5,
                          'op': 8, 'op_remove': 12, 'tick': 0.5, 'state': 0.5}),
-    'C02': dict(BASE, max_faults=6, ops='fsm', running_failure=gen.RUNNING_FAILURE + ['RESTART', 'SHUTDOWN'],
+    'C02': dict(BASE, p_ending_in_election_focus=0.12, max_faults=6, ops='fsm', running_failure=gen.RUNNING_FAILURE + ['RESTART', 'SHUTDOWN'],
                 p_autostart=0.4, p_late_boot=0.4,
                 fault_weights={'crash': 2, 'restart': 3, 'partition': 2, 'stall': 1, 'slow': 1, 'clock_jump': 0.5,
                                'child_exit': 5},
@@ -169,6 +172,82 @@ def build(prop, seed):
     rng = random.Random(kernel.hash64(seed, 'gen'))
     config = gen.gen_config(rng, prof)
     plan = gen.gen_boots(rng, prof, config)
+    if rng.random() < prof.get('p_ending_in_election_focus', 0.0):
+        # a process whose running failure strategy is SHUTDOWN / RESTART crashes on the freshly elected Master while it is
+        # still in ELECTION (the only way to an ending state from ELECTION)
+        apps_e = [a for a in config['rules']['applications'] if a.get('programs')]
+        if apps_e:
+            app = gen.pick(rng, apps_e)
+            rule = app['programs'][0]
+            rule['running_failure_strategy'] = gen.pick(rng, ['SHUTDOWN', 'RESTART'])
+            rule['identifiers'] = '*'
+            pname = rule.get('name') or rule['pattern'].rstrip('_')
+            grp = next(g for g in config['groups'] if g['name'] == app['name'])
+            prog = next(p_ for p_ in grp['programs'] if p_['name'] == pname)
+            prog.update({'autostart': True, 'startsecs': 0, 'autorestart': 'false', 'numprocs': 1})
+            rule.pop('pattern', None)
+            rule['name'] = pname
+            config['children'].pop('%s:%s' % (app['name'], pname), None)
+            # a single copy, on the instance the election rule picks when everybody boots together
+            config['supvisors']['core_identifiers'] = []
+            first = min(s_['nick'] for s_ in config['instances'])
+            for spec in config['instances']:
+                spec.pop('disabled', None)
+                spec['absent_programs'] = [] if spec['nick'] == first else ['%s:%s' % (app['name'], pname)]
+            for item in plan:
+                item['t'] = round(rng.uniform(0.0, 1.5), 3)
+            plan[0]['t'] = 0.0
+            for _k in range(rng.randint(1, 3)):
+                plan.append({'kind': 'child_exit', 'inst': '$trigger', 'namespec': '%s:%s' % (app['name'], pname), 'code': 1,
+                             'trigger': {'state': 'ELECTION', 'inst': '*', 'master': True,
+                                         'delay': round(rng.uniform(0.0, 6.0), 3), 'after': 5.0, 'before': 150.0}})
+            return {'prop': prop, 'seed': seed, 'config': config, 'plan': plan, 't_end': 200.0}
+    if rng.random() < prof.get('p_stop_focus', 0.0):
+        # STOP starting failure strategy in focus: one sequenced application whose second group holds a required program
+        # that fails at once and other programs that fail later or start slowly; nothing else disturbs the run
+        apps_f = [a for a in config['rules']['applications'] if len(a.get('programs', [])) >= 3]
+        if apps_f:
+            app = gen.pick(rng, apps_f)
+            app['starting_failure_strategy'] = 'STOP'
+            app['start_sequence'] = 1
+            app['distribution'] = 'ALL_INSTANCES'
+            app.pop('identifiers', None)
+            grp = next(g for g in config['groups'] if g['name'] == app['name'])
+            progs = {p_['name']: p_ for p_ in grp['programs']}
+            for k, rule in enumerate(app['programs']):
+                pname = rule.get('name') or rule['pattern'].rstrip('_')
+                rule['identifiers'] = '*'
+                rule['expected_loading'] = 0
+                rule.pop('starting_failure_strategy', None)
+                rule['wait_exit'] = False
+                key = '%s:%s' % (app['name'], pname)
+                config['children'].pop(key, None)
+                progs[pname]['autostart'] = False
+                if k == 0:
+                    rule['start_sequence'], rule['required'] = 1, True
+                elif k == 1:
+                    rule['start_sequence'], rule['required'] = 2, True
+                    progs[pname]['startretries'] = 0
+                    config['children'][key] = gen.pick(rng, [{'exec_fail': True}, {'exit_after': 0.05, 'exit_code': 1}])
+                    progs[pname]['startsecs'] = max(1, progs[pname].get('startsecs', 1))
+                else:
+                    rule['start_sequence'] = 2
+                    rule['required'] = rng.random() < 0.3
+                    if rule['required']:
+                        rule['starting_failure_strategy'] = gen.pick(rng, ['CONTINUE', 'ABORT'])
+                    progs[pname]['startretries'] = rng.randint(1, 3)
+                    progs[pname]['startsecs'] = gen.pick(rng, [2, 4, 8])
+                    beh = gen.pick(rng, ['fail_later', 'fail_later', 'ok'])
+                    if beh == 'fail_later':
+                        config['children'][key] = {'exit_after': round(rng.uniform(0.2, 1.5), 3), 'exit_code': 1}
+            for spec in config['instances']:
+                spec.pop('absent_programs', None)
+                spec.pop('disabled', None)
+            for item in plan:
+                item['t'] = round(rng.uniform(0.0, 1.5), 3)
+            plan[0]['t'] = 0.0
+            t_end = 160.0
+            return {'prop': prop, 'seed': seed, 'config': config, 'plan': plan, 't_end': t_end}
     if rng.random() < prof.get('p_join_only', 0.0) and len(config['instances']) >= 3:
         # join-only run: nothing but boots and slow (directed) links, the last joiner being the instance the election
         # rule prefers (lowest nick, or a core member) and hearing the established Master late
@@ -245,6 +324,20 @@ def build(prop, seed):
                 plan.append({'t': round(t_up + rng.uniform(1.0, 14.0), 3), 'kind': 'rpc', 'inst': item['inst'],
                              'method': 'supvisors.' + gen.pick(rng, ['disable', 'disable', 'enable']),
                              'args': [gen.pick(rng, progs), False]})
+    if prof.get('p_ending_op_near_loss'):
+        # restart / shutdown asked to some instance in the seconds that follow the loss of an instance (possibly the
+        # Master: the others have no Master until their next evaluation)
+        nicks_e = [s_['nick'] for s_ in config['instances']]
+        for item in list(plan):
+            if item['kind'] in ('crash', 'restart') and rng.random() < prof['p_ending_op_near_loss']:
+                op = {'kind': 'rpc', 'inst': gen.pick(rng, nicks_e + ['$nonmaster']),
+                      'method': 'supvisors.' + gen.pick(rng, ['shutdown', 'restart']), 'args': []}
+                if 't' in item:
+                    op['t'] = round(item['t'] + rng.uniform(0.05, 14.0), 3)
+                elif 'trigger' in item:
+                    op['trigger'] = dict(item['trigger'], delay=round(item['trigger'].get('delay', 0.0)
+                                                                      + rng.uniform(0.05, 14.0), 3))
+                plan.append(op)
     for _ in range(gen.pick(rng, prof.get('ops_pairs', [0]))):
         # a request creating jobs on one instance, closely followed by restart_sequence on another one
         nicks_ = [s_['nick'] for s_ in config['instances']]
@@ -259,6 +352,18 @@ def build(prop, seed):
         plan.append({'t': round(t, 3), 'kind': 'rpc', 'inst': b, 'method': 'supvisors.' + method, 'args': args})
         plan.append({'t': round(t + rng.uniform(0.02, 3.0), 3), 'kind': 'rpc', 'inst': a,
                      'method': 'supvisors.restart_sequence', 'args': [False]})
+    if prof.get('p_stop_before_crash'):
+        # a process stopped directly on the victim's Supervisor (not through the Master's Stopper) shortly before the crash:
+        # with a slow stop it is still STOPPING there when the instance is lost
+        for fault in [i for i in plan if i['kind'] == 'crash']:
+            if rng.random() < prof['p_stop_before_crash']:
+                ns = gen.pick(rng, gen.namespecs_of(config))
+                if rng.random() < 0.4:
+                    ns = ns.split(':')[0] + ':*'
+                op = {'kind': 'rpc', 'inst': fault['inst'], 'method': 'supervisor.stopProcess', 'args': [ns, False]}
+                if 't' in fault:
+                    op['t'] = round(max(1.0, fault['t'] - rng.uniform(0.05, 2.5)), 3)
+                    plan.append(op)
     if prof.get('ops_near_fault'):
         # user operations landing between a crash and its detection: the loss is then handled while the Master's
         # Starter / Stopper is busy with something else
